@@ -945,6 +945,11 @@ impl World {
                     kind: FaultKind::Error,
                 });
                 self.reconnect(self.rec.clone()).await;
+                self.life_notes.push(format!(
+                    "restarted while every GET under {}/ failed -> serving {:?}",
+                    n.b,
+                    self.state.db_names().await
+                ));
                 // storage recovers
                 h.reset();
                 if self.spec.life == Life::FailedReopenThenOpened && self.spec.bmode != BMode::Absent {
